@@ -259,6 +259,16 @@ func (w *World) closeDB() {
 
 // Reopen closes and opens the database again (model: open transactions vanish).
 func (w *World) Reopen() error {
+	if w.Case.External {
+		// the server goes away: readers it is still streaming to are read out first, and the handles
+		// of the client that was connected to it are not used again (a new client connects afterwards)
+		if !w.drainReaders("before the server is stopped", true) {
+			return errors.New(w.R.Fail)
+		}
+		for _, h := range w.handles {
+			h.tx = nil
+		}
+	}
 	w.closeDB()
 	w.M.Reopen()
 	// handles of vanished transactions stay addressable as "late" handles
@@ -584,6 +594,27 @@ func (w *World) readKey(id int, key string, useReader bool) ([]byte, error) {
 	if err != nil {
 		return nil, err
 	}
+	if (w.step+len(key))%8 == 5 {
+		// a caller that looks at the beginning only and closes the reader early; the content is then read
+		// again completely and must begin with what the abandoned reader delivered
+		head := make([]byte, 100)
+		n, herr := io.ReadFull(rc, head)
+		if cerr := rc.Close(); cerr != nil {
+			return nil, fmt.Errorf("close of a partly read GetReader: %w", cerr)
+		}
+		if herr != nil && herr != io.EOF && herr != io.ErrUnexpectedEOF {
+			return nil, fmt.Errorf("read from GetReader: %w", herr)
+		}
+		w.Stats["reader-closed-early"]++
+		full, gerr := s.Get(w.ctx, key)
+		if gerr != nil {
+			return nil, fmt.Errorf("Get right after a partly read GetReader: %w", gerr)
+		}
+		if !bytes.HasPrefix(full, head[:n]) || (n < len(head) && n != len(full)) {
+			return nil, fmt.Errorf("a partly read GetReader delivered %d bytes that are not the beginning of the %d bytes Get returns", n, len(full))
+		}
+		return full, nil
+	}
 	b, rerr := io.ReadAll(rc)
 	cerr := rc.Close()
 	if rerr != nil {
@@ -607,7 +638,7 @@ type heldReader struct {
 }
 
 func (w *World) holdReader(id int, key string, want []byte) {
-	if w.Case.External || len(w.heldReaders) >= 2 || (w.step+len(key)+len(want))%3 != 0 {
+	if len(w.heldReaders) >= 2 || (w.step+len(key)+len(want))%3 != 0 {
 		return
 	}
 	rc, err := w.store(id).GetReader(w.ctx, key)
